@@ -237,7 +237,8 @@ def ciop(op):
     if op[0] == "share":
         return "IShare %d %s %s" % (op[1], clist("%d%%nat" % i for i in op[2]), clist("%d%%nat" % i for i in op[3]))
     if op[0] == "graft":
-        return "IGraft %d %s" % (op[1], clist("%d%%nat" % i for i in op[2]))
+        mode = {"branch": 0, "edlabel": 1, "edindex": 2}[op[3] if len(op) > 3 else "branch"]
+        return "IGraft %d %s %d" % (op[1], clist("%d%%nat" % i for i in op[2]), mode)
     return "IBase (%s)" % cop(op)
 
 
